@@ -4,6 +4,8 @@ TD = dict(overlays=['contracts/thrift_decode.ovl'], harness='harness/C08/thrift.
           trusted=['stubs/thrift_stubs.c: strncpy(dst,src,n) only makes dst[0..n) arbitrary'])
 
 WIP = True
+FZ_SKIP = dict(kind='fuzz', harness='replay/fz/thrift_skip.c', max_len=48, secs=20,
+               sources=['src/thrift/thrift_decode.c', 'src/core/buffer.c'])
 SKIP_CALLEES = ['thrift_skip__rec', 'thrift_read_varint', 'thrift_read_binary', 'thrift_read_list_begin',
                 'thrift_read_map_begin', 'thrift_read_struct_begin', 'thrift_read_struct_end',
                 'thrift_read_field_begin']
@@ -40,9 +42,52 @@ JOBS = [
     td('list_begin', 'h_td_list_begin', 'thrift_read_list_begin', ['thrift_read_varint']),
     td('set_begin', 'h_td_set_begin', 'thrift_read_set_begin', ['thrift_read_list_begin']),
     td('map_begin', 'h_td_map_begin', 'thrift_read_map_begin', ['thrift_read_varint']),
-    td('skip', 'h_td_skip', 'thrift_skip', SKIP_CALLEES, min_loop_obligations=3, est_s=60),
+    td('skip', 'h_td_skip', 'thrift_skip', SKIP_CALLEES, min_loop_obligations=3, est_s=60, replayer=FZ_SKIP),
     # recursion depth: one thrift_skip frame per struct nesting level at most (ghost cqv_skip_depth)
     dict(td('skip_depth', 'h_td_skip', 'thrift_skip', SKIP_CALLEES, min_loop_obligations=3, est_s=60,
             defines=['CQV_SKIP_DEPTH=1']), name='c04_thrift_skip_depth', props=['C04']),
+    # exact consumption per wire type (fixed-width scalars, list/set of fixed-width elements)
+    dict(td('skip_exact', 'h_td_skip', 'thrift_skip', SKIP_CALLEES, min_loop_obligations=3, est_s=60,
+            defines=['CQV_SKIP_EXACT=1'], replayer=FZ_SKIP), name='c13_thrift_skip_exact', props=['C13']),
     td('skip_field', 'h_td_skip_field', 'thrift_skip_field', ['thrift_skip']),
+]
+
+# ---------------------------------------------------------------------------------------------
+# C13: writer <-> reader primitives, all values ("harness is the contract", loops unwound completely)
+TE = dict(overlays=['contracts/thrift_encode.ovl'], harness='harness/C13/thrift.c', includes=['.'], prop='C13',
+          extra_sources=['stubs/mem_stubs.c', 'stubs/thrift_stubs.c'], loop_contracts=False,
+          defines=['CQV_MEMCPY_EXACT=16'], unwind=17, wip=WIP,
+          trusted=['stubs/thrift_stubs.c: strncpy(dst,src,n) only makes dst[0..n) arbitrary',
+                   'stubs/mem_stubs.c with CQV_MEMCPY_EXACT=16: copies of <= 16 bytes are exact'])
+
+
+def te(name, entry, functions, **kw):
+    d = dict(name='c13_thrift_' + name, entry=entry, functions=functions)
+    d.update(TE)
+    d.update(kw)
+    return d
+
+
+JOBS += [
+    te('varint', 'h13_varint', ['thrift_write_varint', 'thrift_read_varint']),
+    te('varint_decode_any', 'h13_varint_decode_any', ['thrift_read_varint']),
+    te('i64', 'h13_i64', ['thrift_write_i64', 'thrift_write_zigzag', 'thrift_read_i64', 'thrift_read_zigzag']),
+    te('i32', 'h13_i32', ['thrift_write_i32', 'thrift_read_i32']),
+    te('i16', 'h13_i16', ['thrift_write_i16', 'thrift_read_i16']),
+    te('byte', 'h13_byte', ['thrift_write_byte', 'thrift_read_byte']),
+    te('double', 'h13_double', ['thrift_write_double', 'thrift_read_double']),
+    te('bool', 'h13_bool', ['thrift_write_bool', 'thrift_read_bool']),
+    te('binary', 'h13_binary', ['thrift_write_binary', 'thrift_read_binary'], level='bounded',
+       bound='payload length <= 16 bytes (all contents); all lengths are covered by c13_thrift_binary_len'),
+    te('binary_len', 'h13_binary_len', ['thrift_write_binary', 'thrift_read_binary']),
+    te('uuid', 'h13_uuid', ['thrift_write_uuid', 'thrift_read_uuid']),
+    te('field_header_roundtrip', 'h13_field_header_roundtrip',
+       ['thrift_write_field_header', 'thrift_read_field_begin', 'thrift_read_bool']),
+    te('field_header_form', 'h13_field_header_form', ['thrift_write_field_header']),
+    te('struct', 'h13_struct', ['thrift_write_struct_begin', 'thrift_write_struct_end', 'thrift_write_field_stop',
+                                'thrift_read_struct_begin', 'thrift_read_struct_end', 'thrift_read_field_begin']),
+    te('list_begin', 'h13_list_begin', ['thrift_write_list_begin', 'thrift_read_list_begin']),
+    te('set_begin', 'h13_list_begin', ['thrift_write_set_begin', 'thrift_read_set_begin'],
+       defines=['CQV_MEMCPY_EXACT=16', 'CQV_SET=1']),
+    te('map_begin', 'h13_map_begin', ['thrift_write_map_begin', 'thrift_read_map_begin']),
 ]
